@@ -805,6 +805,13 @@ def boundary_gather_rules(ctx, tk, rule, funcs):
                 hi_ok = b[2] <= ext[1] - 1          # max index size+b[2] <= size+ext_b-1
                 lo_ok = b[1] >= 0
                 detail = []
+                if b[2] < 0 and b[1] == 0 and hi_ok:
+                    # clamped to size-1: for an array without cells that is -1 -> needs the size == 0 case handled before
+                    from .guards import facts_at as _facts
+                    nonempty = any(t.k == "cmp" and is_size(t.a[1]) and is_const(t.a[2], 0) and ((t.a[0] in ("!=", ">")) == truth) for t, truth, _ in _facts(fa, n))
+                    if not nonempty:
+                        lo_ok = False
+                        detail.append("the clamp to size-1 is -1 for an array whose rows are all empty, and no `size == 0` exit dominates the gather (IndexError)")
                 if not hi_ok:
                     # licensed by a dominating emptiness refusal?  (size == 0 early exit does not help: trailing empty row)
                     detail.append("the index reaches size%+d but the array has size%+d entries: IndexError as soon as the last row is empty" % (b[2], ext[1]))
